@@ -43,7 +43,8 @@ def run_case(case):
                         else:
                             # finding D82: a plain `git commit` would also take whatever else is staged (after reset --soft, git mv ...)
                             # while the work tree differs from it by hunks that remove lines; commit exactly this path instead
-                            sc.g("add", "--", sc.log[-1][1]); sc.g("commit", "-q", "-m", "only another file", "--", sc.log[-1][1])
+                            other = sc.log[-1][1]
+                            sc.g("add", "--", other); sc.g("commit", "-q", "-m", "only another file", "--", other)
                 ch = sc.op_destructive()
                 destr += 1
                 sc.human_overwrite_same_lines()
